@@ -78,6 +78,12 @@ CHECKS = {
         "Meaning = public AST with columns erased. File I/O of SAVE/LOAD is emulated by Listing::load_str. Beyond length k only sampled.",
         "6 C05",
     ),
+    "C06": (
+        "proptest-generated statement sequences over a universe of colliding names (scalars and arrays of every type, DIM/ERASE/SWAP/DEFtype/CLEAR, boundary subscripts) compared step by step with a reference store model, plus a final aliasing sweep over everything touched",
+        "Exploration with a reference model: after every generated statement the printed read (or the error) must match a map from (name, subscripts) to a typed value; type-revealing sentinels show the type a value was stored in; a final sweep reads every name and element ever touched so that aliasing between distinct names, arrays and elements is visible.",
+        "Trusted base: the store in model.rs (A10, A11). DEFtype: variables of other letters may be kept or dropped (observed once).",
+        "6 C06",
+    ),
     "C07": (
         "exhaustive cross product of boundary strings x patterns x positions over 22 string-operation forms + proptest random strings, against character-based reference implementations written from the manual; metamorphic identities",
         "Exploration with a reference model: the boundary matrix (12 subjects incl. 2/3/4-byte characters and 254/255-character strings, 11 patterns, 19 positions/counts) is enumerated completely for every form (41k cases); random strings over a mixed alphabet with patterns cut from the subject sample the rest. Results must be exact; out-of-domain arguments must produce a BASIC error; four metamorphic identities tie the functions to each other.",
